@@ -229,8 +229,12 @@ Match(ts, r) == Len(r) \in WsClosure(r, FoldLeft(LAMBDA S, t : MatchStep(r, S, t
 (*   pdfdoc.del       cell 0x7F is None                                        /  character as itself*)
 (*   utf8.bom.kept    the UTF-8 branch hands the whole slice (mark included) to String::from_utf8   *)
 (* A switch that is off stands for "repaired so that the character survives the round trip".       *)
+(* pdfdoc.c0 (fix: b873012) and utf8.bom.kept (fix: fef01d1) are repaired in lopdf: the code as it   *)
+(* is is the layer with dev = AsIsDevs; the two repaired switches remain so that a regression is     *)
+(* named by its class (the classifier and Trace_TextString always offer all of AllDevs).             *)
 
 AllDevs == {"pdfdoc.c0", "pdfdoc.c0.undef", "pdfdoc.c18", "pdfdoc.del", "utf8.bom.kept"}
+AsIsDevs == {"pdfdoc.c0.undef", "pdfdoc.c18", "pdfdoc.del"}       \* the deviations still in the code (known findings)
 
 Accents == <<\h2D8, \h2C7, \h2C6, \h2D9, \h2DD, \h2DB, \h2DA, \h2DC>>      \* PDFDoc 0x18-0x1F
 PdfDocMid == <<\h2022, \h2020, \h2021, \h2026, \h2014, \h2013, \h192, \h2044, \h2039, \h203A, \h2212,
